@@ -18,6 +18,42 @@ type term struct {
 	p1   int    // extract hi / extension amount
 	p2   int    // extract lo
 	size int    // saturating tree size
+	h1   uint64 // structural hash (0 = not computed)
+	h2   uint64
+}
+
+type termKey struct{ a, b uint64 }
+
+// key returns a 128-bit structural hash of the term (memoised per node).
+func (t *term) key() termKey {
+	if t.h1 != 0 || t.h2 != 0 {
+		return termKey{t.h1, t.h2}
+	}
+	const p1, p2 = 1099511628211, 0x9E3779B97F4A7C15
+	a, b := uint64(14695981039346656037), uint64(0x2545F4914F6CDD1D)
+	mix := func(v uint64) {
+		a = (a ^ v) * p1
+		b = (b + v + (b << 7) + (b >> 3)) * p2
+	}
+	for i := 0; i < len(t.op); i++ {
+		mix(uint64(t.op[i]))
+	}
+	mix(uint64(t.w) + 0x100)
+	mix(t.val)
+	for i := 0; i < len(t.name); i++ {
+		mix(uint64(t.name[i]) + 0x200)
+	}
+	mix(uint64(t.p1)<<16 | uint64(t.p2))
+	for _, x := range t.args {
+		k := x.key()
+		mix(k.a)
+		mix(k.b)
+	}
+	if a == 0 && b == 0 {
+		a = 1
+	}
+	t.h1, t.h2 = a, b
+	return termKey{a, b}
 }
 
 var (
@@ -155,6 +191,30 @@ func tBV(op string, a, b *term) *term {
 		}
 		return tConst(w, r)
 	}
+	// byte (dis)assembly: keep shifts/ors of zero-extended pieces as concats
+	switch op {
+	case "bvshl":
+		if b.isConst() && b.val > 0 && b.val < uint64(w) {
+			k := int(b.val)
+			if inner := stripZext(a); inner.w+k <= w {
+				return tResize(tConcat(inner, tConst(k, 0)), w, false)
+			}
+		}
+	case "bvor":
+		if r := orAssemble(a, b, w); r != nil {
+			return r
+		}
+		if r := orAssemble(b, a, w); r != nil {
+			return r
+		}
+	case "bvand":
+		for _, pr := range [][2]*term{{a, b}, {b, a}} {
+			if m := pr[1]; m.isConst() && m.val != 0 && m.val != mask(w) && (m.val&(m.val+1)) == 0 {
+				k := bits.Len64(m.val)
+				return tResize(tExtract(k-1, 0, pr[0]), w, false)
+			}
+		}
+	}
 	// identities
 	switch op {
 	case "bvadd", "bvor", "bvxor":
@@ -193,6 +253,34 @@ func tBV(op string, a, b *term) *term {
 		}
 	}
 	return mk(op, w, a, b)
+}
+
+// stripZext removes zero extensions.
+func stripZext(a *term) *term {
+	for a.op == "zero_extend" {
+		a = a.args[0]
+	}
+	return a
+}
+
+// lowZeros returns k if the low k bits of a are a constant zero block
+// (a = concat(p, 0_k)), else 0.
+func lowZeros(a *term) (k int, p *term) {
+	if a.op == "concat" && a.args[1].isConst() && a.args[1].val == 0 {
+		return a.args[1].w, a.args[0]
+	}
+	return 0, nil
+}
+
+// orAssemble: zext(concat(p, 0_k)) | zext(y) with y narrower than k bits is
+// zext(concat(p, zext_k(y))).
+func orAssemble(x, y *term, w int) *term {
+	ax, ay := stripZext(x), stripZext(y)
+	k, p := lowZeros(ax)
+	if k == 0 || ay.w > k || ay.isConst() && ay.w > k {
+		return nil
+	}
+	return tResize(tConcat(p, tResize(ay, k, false)), w, false)
 }
 
 func tBVNot(a *term) *term {
@@ -361,6 +449,21 @@ func tExtract(hi, lo int, a *term) *term {
 			return tExtract(hi, lo, inner)
 		}
 	}
+	if a.op == "bvlshr" && a.args[1].isConst() {
+		k := int(a.args[1].val)
+		if a.args[1].val < uint64(a.w) && hi+k < a.w {
+			return tExtract(hi+k, lo+k, a.args[0])
+		}
+	}
+	if a.op == "bvshl" && a.args[1].isConst() {
+		k := int(a.args[1].val)
+		if a.args[1].val < uint64(a.w) && lo >= k {
+			return tExtract(hi-k, lo-k, a.args[0])
+		}
+	}
+	if a.op == "extract" {
+		return tExtract(hi+a.p2, lo+a.p2, a.args[0])
+	}
 	if a.op == "concat" {
 		// concat(hiPart, loPart)
 		lw := a.args[1].w
@@ -380,6 +483,14 @@ func tConcat(hi, lo *term) *term {
 	if hi.isConst() && lo.isConst() && hi.w+lo.w <= 64 {
 		return tConst(hi.w+lo.w, hi.val<<uint(lo.w)|lo.val)
 	}
+	// adjacent extracts of one term merge back
+	if hi.op == "extract" && lo.op == "extract" && hi.args[0] == lo.args[0] && hi.p2 == lo.p1+1 {
+		return tExtract(hi.p1, lo.p2, hi.args[0])
+	}
+	if hi.op == "extract" && lo.op == "concat" && lo.args[0].op == "extract" && hi.args[0] == lo.args[0].args[0] && hi.p2 == lo.args[0].p1+1 {
+		return tConcat(tExtract(hi.p1, lo.args[0].p2, hi.args[0]), lo.args[1])
+	}
+	// a full-width low part that is itself x's low bits: concat(extract(x,w-1,k), extract(x,k-1,0)) handled above
 	return mk("concat", hi.w+lo.w, hi, lo)
 }
 
@@ -559,4 +670,3 @@ func evalOp(t *term, vs []uint64) uint64 {
 	}
 }
 
-var _ = bits.Len
